@@ -699,6 +699,12 @@ def mul(a, b):
     shape = bcast_shapes(a._shape, b._shape)
     nd = len(shape)
     dt = _res_dtype(a, b)
+    # x * 0 is 0 for every finite x (floats are reals): also for opaque operands
+    for z, o in ((a, b), (b, a)):
+        if z.kind == "sc" and z.v.is_zero() and o.kind in ("opq", "vec", "par") and getattr(o, "ext", None) is None:
+            r = Tensor("sc", Sc(0), shape, dt)
+            r._is_zeros = True
+            return _taped("mul0", [a, b], r, lambda g: [None, None])
     if a.kind == "sc" and b.kind == "sc":
         r = Tensor("sc", a.v * b.v, shape, dt)
         return _taped("mul", [a, b], r, lambda g: [mul(g, conj(b)), mul(g, conj(a))])
@@ -1309,6 +1315,9 @@ def zeros_like(a, dtype=None, **kw):
 
 
 def ones_like(a, dtype=None, **kw):
+    if a.kind == "vec":
+        # the all-ones element of the same abstract space: a fixed vector
+        return Tensor("vec", Vec.base("ones"), a._shape, dtype or a.dtype, a.vaxes)
     return Tensor("sc", Sc(1), a._shape, dtype or a.dtype)
 
 
